@@ -3,6 +3,7 @@ From Coq Require Import List String ZArith Bool.
 From GG Require Import Base.Strs Model.Codes Model.IgnoreSet Model.Config Model.GoTypes Model.GoAst Model.Annots Model.Analyze Model.Impl Model.Reporter
                        Extracted Exec Proofs.CodesProofs Proofs.ReporterProofs Proofs.DiagProofs Proofs.ImplProofs Proofs.ImplPosProofs.
 From GG Require Properties.C07 Properties.C14.
+From GG Require Proofs.LocalProofs Proofs.PosProofs.
 Import ListNotations.
 Local Open Scope string_scope.
 Local Open Scope Z_scope.
@@ -94,6 +95,31 @@ Theorem C17_positioned_in_a_kept_file :
        In d (tonl_file fs (p_path p) sup f) \/ In d (pkgo_file fs (p_path p) (p_name p) sup f)).
 Proof. exact C14.C14_diagnostics_come_from_kept_files. Qed.
 
+(* ... more precisely: at the position of a NODE of a top-level declaration of a kept file (the statement, expression or name
+   the message talks about) - hence, for a file that meets the range condition evaluated on every serialised package, inside that
+   file's own range of positions *)
+Theorem C17_positioned_at_a_node_of_a_kept_file :
+  forall cfg p fs sup d,
+    In d (x_imm cfg p fs sup ++ x_ctor cfg p fs sup ++ x_tonl cfg p fs sup ++ x_pkgo cfg p fs sup) ->
+    exists f, In f (kept_files cfg p) /\ PosProofs.at_decl_of f (d_pos d) /\
+              (LocalProofs.file_range_ok f = true -> LocalProofs.in_span f (d_pos d)).
+Proof.
+  intros cfg p fs sup d H.
+  assert (G : exists f, In f (kept_files cfg p) /\ PosProofs.at_decl_of f (d_pos d)).
+  { repeat (apply in_app_or in H; destruct H as [H|H]).
+    - unfold x_imm, report_filter in H. apply filter_In in H. destruct H as [H _]. unfold imm_candidates in H.
+      destruct (imm_index_empty fs); [contradiction|]. apply in_flat_map in H. destruct H as [f [Hf H]]. apply in_flat_map in H. destruct H as [dd [Hd H]].
+      exists f. split; [exact Hf|]. exists dd. split; [exact Hd|exact (PosProofs.imm_decl_at fs (p_path p) dd d H)].
+    - unfold x_ctor, report_filter in H. apply filter_In in H. destruct H as [H _]. unfold ctor_candidates in H.
+      destruct (ctor_index_empty fs); [contradiction|]. apply in_flat_map in H. destruct H as [f [Hf H]]. apply in_flat_map in H. destruct H as [dd [Hd H]].
+      exists f. split; [exact Hf|]. exists dd. split; [exact Hd|exact (PosProofs.ctor_decl_at fs (p_path p) dd d H)].
+    - unfold x_tonl, tonl_diags in H. destruct (negb (tonl_has AKType fs) && negb (tonl_has AKFunc fs) && negb (tonl_has AKMethod fs)); [contradiction|].
+      apply in_flat_map in H. destruct H as [f [Hf H]]. exists f. split; [exact Hf|exact (PosProofs.tonl_file_at fs (p_path p) sup f d H)].
+    - unfold x_pkgo, pkgo_diags in H. destruct (pkgo_index_empty fs); [contradiction|].
+      apply in_flat_map in H. destruct H as [f [Hf H]]. exists f. split; [exact Hf|exact (PosProofs.pkgo_file_at fs (p_path p) (p_name p) sup f d H)]. }
+  destruct G as [f [Hf Ha]]. exists f. split; [exact Hf|]. split; [exact Ha|]. intros Hok. exact (PosProofs.at_decl_in_span f (d_pos d) Hok Ha).
+Qed.
+
 (* (3') ... and an @implements diagnostic sits at the name of a type declaration of a non-excluded file of the package *)
 Theorem C17_impl_positioned_at_a_type_of_a_kept_file :
   forall cfg p sup d, In d (x_impl cfg p sup) ->
@@ -163,3 +189,4 @@ Print Assumptions C17_positioned_in_a_kept_file.
 Print Assumptions C17_impl_positioned_at_a_type_of_a_kept_file.
 Print Assumptions C17_ignore_comment_of_a_code.
 Print Assumptions C17_suppressible_by_its_own_code.
+Print Assumptions C17_positioned_at_a_node_of_a_kept_file.
